@@ -60,11 +60,18 @@ mod ffi {
 
 REF_MSG = "Callbacks cannot take references"
 ALL7 = ["c", "cpp", "js", "dart", "kotlin", "nanobind", "demo_gen"]
+# accepted non-canonical spellings of the CLI backend argument: the configuration keys stay those of the canonical name
+CLI_ALIAS = {"py-nanobind": "nanobind"}
+ALL8 = ALL7 + ["py-nanobind"]
+
+
+def canon(b):
+    return CLI_ALIAS.get(b, b)
 
 
 def _other_backend(b):
     """a *different* backend whose scoped keys the tool knows about"""
-    return "nanobind" if b == "kotlin" else "kotlin"
+    return "nanobind" if canon(b) == "kotlin" else "kotlin"
 
 
 # ---------------------------------------------------------------------------------------------
@@ -125,6 +132,7 @@ def obs_lib_name(backend, p, out):
     f = _fail(p)
     if f:
         return f
+    backend = canon(backend)
     if backend == "kotlin":
         d, pkg, loads, _ = _kotlin_parts(out)
         a = d[len("dev/verif/"):] if d.startswith("dev/verif/") else "dir:" + d
@@ -237,6 +245,7 @@ class Setting:
     def __init__(self, name, kind, shared, backends, bridge, observe, model, values=None, domain=None, aux=None,
                  file_spellings=("snake", "kebab"), placements=("struct", "impl", "mod", "stacked")):
         self.name, self.kind, self.shared, self.backends, self.bridge = name, kind, shared, backends, bridge
+        self.key_name = name.split("+")[0]    # "a.b+note" = a second lattice over the key a.b under other side conditions
         self.observe, self.model, self.values, self.domain = observe, model, values, domain
         self.aux = aux or (lambda b: [])
         self.file_spellings = file_spellings
@@ -249,20 +258,20 @@ class Setting:
 
     def key(self, backend, scope):
         if scope in ("shared", "own"):
-            return self.name
-        return (backend if scope == "this" else _other_backend(backend)) + "." + self.name
+            return self.key_name
+        return (canon(backend) if scope == "this" else _other_backend(backend)) + "." + self.key_name
 
 
 def _aux_lib(b):
-    return {"kotlin": ["lib_name=auxlib", "kotlin.domain=dev.verif"], "nanobind": ["lib_name=auxlib"]}.get(b, [])
+    return {"kotlin": ["lib_name=auxlib", "kotlin.domain=dev.verif"], "nanobind": ["lib_name=auxlib"]}.get(canon(b), [])
 
 
 DEMO_SPELLINGS = ("snake", "kebab", "table-snake/key-kebab", "table-kebab/key-snake")
 
 SETTINGS = OrderedDict((s.name, s) for s in [
-    Setting("lib_name", "str", True, ["kotlin", "nanobind"], BRIDGE_MAIN, obs_lib_name, lambda b, v: "lib=" + v,
+    Setting("lib_name", "str", True, ["kotlin", "nanobind", "py-nanobind"], BRIDGE_MAIN, obs_lib_name, lambda b, v: "lib=" + v,
             values=lambda src, sc, asp: "lib" + src[0] + sc[0],
-            aux=lambda b: ["kotlin.domain=dev.verif"] if b == "kotlin" else [], placements=("struct", "stacked")),
+            aux=lambda b: ["kotlin.domain=dev.verif"] if canon(b) == "kotlin" else [], placements=("struct", "stacked")),
     Setting("kotlin.domain", "str", False, ["kotlin"], BRIDGE_MAIN, obs_domain, lambda b, v: "domain=" + v,
             values=lambda src, sc, asp: "dattr" if (src == "attr" and asp == "bare") else "org.d" + src,
             aux=lambda b: ["lib_name=auxlib"]),
@@ -276,16 +285,22 @@ SETTINGS = OrderedDict((s.name, s) for s in [
             lambda b, v: "import=%sindex.mjs;jsdir=0" % v,
             values=lambda src, sc, asp: "relattr" if (src == "attr" and asp == "bare") else "../rel%s/" % src,
             file_spellings=DEMO_SPELLINGS),
+    # the same key while a module name is given too (first --config value): the import is <relative_js_path><module_name>, whichever
+    # source either of them comes from
+    Setting("demo_gen.relative_js_path+module_name", "str", False, ["demo_gen"], BRIDGE_MAIN, obs_demo_import,
+            lambda b, v: "import=%sauxmod.mjs;jsdir=0" % v,
+            values=lambda src, sc, asp: "relattr" if (src == "attr" and asp == "bare") else "../rel%s/" % src,
+            aux=lambda b: ["demo_gen.module_name=auxmod.mjs"], file_spellings=("snake",), placements=("struct",)),
     Setting("demo_gen.explicit_generation", "bool", False, ["demo_gen"], BRIDGE_MAIN, obs_demo_explicit,
             lambda b, v: "explicit=" + _b(v), domain=(False, True), file_spellings=DEMO_SPELLINGS),
     Setting("demo_gen.hide_default_renderer", "bool", False, ["demo_gen"], BRIDGE_MAIN, obs_demo_hide,
             lambda b, v: "hide=" + _b(v), domain=(False, True), file_spellings=DEMO_SPELLINGS),
-    Setting("unsafe_references_in_callbacks", "bool", True, ALL7, BRIDGE_CB, obs_unsafe_refs,
+    Setting("unsafe_references_in_callbacks", "bool", True, ALL8, BRIDGE_CB, obs_unsafe_refs,
             lambda b, v: "accept" if v else "reject", domain=(False, True), aux=_aux_lib, placements=("struct", "stacked")),
 ])
 
 QUICK = ["lib_name", "kotlin.domain", "js.abi", "kotlin.use_finalizers_not_cleaners", "demo_gen.module_name",
-         "demo_gen.relative_js_path", "demo_gen.explicit_generation", "demo_gen.hide_default_renderer", "unsafe_references_in_callbacks"]
+         "demo_gen.relative_js_path", "demo_gen.relative_js_path+module_name", "demo_gen.explicit_generation", "demo_gen.hide_default_renderer", "unsafe_references_in_callbacks"]
 
 
 # ---------------------------------------------------------------------------------------------
@@ -411,7 +426,7 @@ def materialize(case):
     if stacked:
         # every attribute of this case on ONE item, behind an unrelated config attribute that is written first
         # (a key that cannot influence what is observed for this setting / backend)
-        if s.name.startswith("kotlin.") or b == "kotlin":
+        if s.name.startswith("kotlin.") or canon(b) == "kotlin":
             lead = '#[diplomat::config(demo_gen.module_name = "stackaux")]\n'
         else:
             lead = '#[diplomat::config(kotlin.domain = "dev.stack")]\n'
@@ -683,7 +698,7 @@ def run(tier):
         if ps and ps != enumerated_pl[name]:
             key += "|attr-on=" + ",".join(sorted(ps))
         s_ = SETTINGS[name]
-        cs.sort(key=lambda c: (len(c["assign"]), ALL7.index(c["backend"]), c["rev"], _rank(s_.file_spellings, c["fsp"]),
+        cs.sort(key=lambda c: (len(c["assign"]), ALL8.index(c["backend"]), c["rev"], _rank(s_.file_spellings, c["fsp"]),
                                _rank(s_.placements, c["placement"]),
                                json.dumps(sorted((k, str(v)) for k, v in c["assign"].items()))))
         c = cs[0]
